@@ -108,7 +108,8 @@ def gen_target(rnd, t):
         tail = rnd.choice(["secret5.txt", "secret0.txt", "outer/secret5.txt", "a.txt", "root/a.txt"])
         return "/" + filler * k + climb + tail
     if inroot and r < 0.55:
-        x = rnd.choice(inroot)
+        files = [e[1][len("outer/root"):] for e in t.ents if e[0] == "F" and e[1].startswith("outer/root/")]
+        x = rnd.choice(files) if files and rnd.random() < 0.6 else rnd.choice(inroot)       # regular files first: the serving path, not only the 404 page
         m = rnd.random()
         if m < 0.12: x = x + "/"
         elif m < 0.27 and x.endswith(".html"): x = x[:-5]
